@@ -219,6 +219,24 @@ def variants_stream(ctx, name, make, count, p_choices=(1, 2, 3), n_range=(36, 70
                     break
         except Exception as ex:
             fail("instance-reuse", f"raised {type(ex).__name__}: {str(ex)[:120]}")
+        # ---- a hyper-parameter changed by plain ATTRIBUTE ASSIGNMENT (what get_params() then reports) takes effect like one passed to the constructor ----
+        try:
+            d = make()
+            pr = d.get_params(deep=False)
+            nm_hp = next((k_ for k_ in ("min_segment_length", "bandwidth", "max_segment_length", "max_interval_length", "min_detection_interval") if isinstance(pr.get(k_), int)), None)
+            if nm_hp is not None:
+                d.fit(Xn.copy())
+                d.predict(Xn.copy())
+                new_v = pr[nm_hp] + (2 if nm_hp in ("min_segment_length", "bandwidth") else -3 if nm_hp in ("max_interval_length", "max_segment_length") and pr[nm_hp] > 12 else 1)
+                setattr(d, nm_hp, new_v)
+                got_hp = _outputs(d.fit(Xn.copy()), Xn.copy())
+                fresh = type(d)(**d.get_params(deep=False))
+                want_hp = _outputs(fresh.fit(Xn.copy()), Xn.copy())
+                if got_hp["predict"] != want_hp["predict"] or not _close(got_hp["scores"], want_hp["scores"], score_rtol):
+                    fail("attribute-assignment", f"after `detector.{nm_hp} = {new_v}` (get_params() reports it) and a new fit the detector gives {str(got_hp['predict'])[:120]}; a "
+                                                 f"detector constructed with the parameters get_params() reports gives {str(want_hp['predict'])[:120]}", {"hyper_parameter": nm_hp, "value": new_v})
+        except Exception as ex:
+            fail("attribute-assignment", f"raised {type(ex).__name__}: {str(ex)[:120]}")
         # ---- a 0/1 column stored as BOOL next to float columns is data like any other (the same numbers as 0.0 / 1.0) ----
         if p >= 2:
             try:
